@@ -65,8 +65,8 @@ func C19(c *core.Ctx) {
 	}
 	c.Count("write_call_sites", nsinks)
 	c.Count("writer_functions", len(writers))
-	c.Floor("B1/write-sinks", nsinks, 40)
-	c.Floor("B1/writer-functions", len(writers), 13)
+	c.Floor("B1/write-sinks", nsinks, 28)
+	c.Floor("B1/writer-functions", len(writers), 9)
 	// ---- B2: propagation along the static call graph
 	wset := map[*ssa.Function]bool{}
 	for f := range writers {
@@ -127,7 +127,7 @@ func C19(c *core.Ctx) {
 		}
 	}
 	c.Count("propagation_call_sites", nprop)
-	c.Floor("B2/propagation-sites", nprop, 14)
+	c.Floor("B2/propagation-sites", nprop, 10)
 	checkExecuteExits(c, "B2/cmd.Execute")
 	c.Sample(map[string]interface{}{"rule": "B1", "sinks": nsinks, "writer_functions": len(writers)})
 }
